@@ -50,6 +50,18 @@ def arm_parts(arm):
             if nums_init is None and s["pat"].get("ty", "").endswith("Vec<f64>"):
                 nums_init = (s["pat"]["name"], S.norm(s["init"], e2))
                 e2.roles[s["pat"]["name"]] = N
+                # an extracted helper may already contain the emptiness guard: statements of the inlined helper bodies count as well
+                for blk_ in H.walk(s["init"]):
+                    if H.kind(blk_) == "Block" and blk_.get("inlined_from"):
+                        e3 = S.Env()
+                        inner_ = blk_.get("expr") if H.kind(blk_.get("expr")) == "Block" else blk_
+                        for st_ in inner_["stmts"]:
+                            if st_["k"] == "Let" and H.kind(st_["pat"]) == "Bind" and st_["pat"].get("ty", "").endswith("Vec<f64>"):
+                                e3.roles[st_["pat"]["name"]] = N
+                            elif st_["k"] in ("Expr", "Semi"):
+                                sub_ = []
+                                B.leaves(st_["e"], e3, sub_)
+                                rest += [x_ for x_ in sub_ if x_[0] == "when"]
                 continue
             ce = e2.child()
             e2.roles.pop(s["pat"]["name"], None)
